@@ -71,6 +71,16 @@ CLAIMS = {
              "The monitor re-evaluates the rule on the real driver's trace for all 70 combinations in both call orders.",
         technique="Lean 4 weakest-precondition proof over the model + kernel-decided byte facts + exhaustive combination scripts",
         design="7 C13"),
+    'C15': dict(
+        text="Proof for the fault-free clauses; fault clause by enumeration. Theorems Sx.C15_lora (all 8 modes, any previous mode/modulation, "
+             "any prior register content: OK, RegOpMode = mode|0x80, RegDioMapping1 per the datasheet table dio1Spec, RegDioMapping2 untouched, "
+             "handle updated, nothing else changes), C15_fsk_ook (8 modes x FSK/OOK with the FSK/OOK page selected: chip exactly fskModeSpec — "
+             "DIO routing, FIFO threshold, sequencer armed instead of RegOpMode for TX — handle updated), dio_unclaimed (unclaimed pins keep "
+             "their routing, bit-level), C15_unknown_modulation (rejected before any request), enum_modes_are_datasheet (regenerated enumerators). "
+             "'Handle unchanged when a transfer fails' is decided by the script family that injects a fault at each transfer index and by the "
+             "trace correspondence. Open known finding: FSK/OOK RX/TX entered directly from the LoRa register page (see known_findings.json).",
+        technique="Lean 4 weakest-precondition proof over 24 mode/modulation cases + fault-position enumeration",
+        design="7 C15"),
     'C16': dict(
         text="Proof. Theorems Sx.C16_kth_hop_index (the j-th channel-change event after a packet boundary uses entry j mod len, for every list "
              "length >= 1 and every number of hops, by induction), C16_hop (one hop from any stored counter <= len: RegFrf is programmed with "
